@@ -111,6 +111,9 @@ pub fn prop(tier: Tier, seed: u64) -> Prop {
             return;
         }
         ctx.sample(|| json!({"src": [sw, sh], "dst": [dw, dh], "alg": format!("{:?}", alg), "crop_variant": d[5], "inside": "13 types (dynamic) + 6 types (typed) x destination kinds x sentinels {0x5A,0xA5}"}));
+        if ctx.describe_only {
+            return;
+        }
         let mut o = Opts::new(alg);
         o.cx = cx;
         o.cy = cy;
@@ -220,7 +223,7 @@ pub fn prop(tier: Tier, seed: u64) -> Prop {
             ctx.class(mix(mix(pt.idx() as u64, d[4] as u64), mix(d[5] as u64, (zero_dim as u64) * 2 + o.alpha as u64)));
         }
         ctx.nontrivial += 1;
-    }));
+    }).isolated());
 
     // ---- (2) alpha operations, mappers, component conversion
     let n2 = (s + 2) as u64;
@@ -232,6 +235,9 @@ pub fn prop(tier: Tier, seed: u64) -> Prop {
         let (w, h, opk) = (d[0] as u32, d[1] as u32, d[2]);
         const OPS: [&str; 9] = ["multiply_alpha", "divide_alpha", "multiply_alpha_inplace", "divide_alpha_inplace", "forward_map", "backward_map", "forward_map_inplace", "backward_map_inplace", "change_type"];
         ctx.sample(|| json!({"size": [w, h], "operation": OPS[opk]}));
+        if ctx.describe_only {
+            return;
+        }
         let zero_dim = w == 0 || h == 0;
         for (pi, pt) in ALL_PT.iter().copied().enumerate() {
             let src = content(pt, w, h, seed ^ idx ^ ((pi as u64) << 36));
@@ -327,7 +333,7 @@ pub fn prop(tier: Tier, seed: u64) -> Prop {
             }
         }
         ctx.nontrivial += 1;
-    }));
+    }).isolated());
 
     p.rule = "resize: every (sw,sh,dw,dh) in (0..S)^4 (zero dimensions included) x 10 algorithms (Nearest, Convolution, Interpolation, SuperSampling with multiplicity 1,2,3,255) x 4 crop variants (none, integer, fractional, invalid) x 13 pixel types x destination kinds {owned, Vec with spare capacity, exact slice, slice with 1 / w / 3w+2 spare pixels, mutable cropped view at 8 placements/margins, typed slice / buffer / cropped / nested-cropped views} x sentinels {0x5A,0xA5}; alpha multiply/divide (two-image and in place), colour mapping forward/backward (two-image and in place) and component conversion on sizes (0..S+1)^2. Oracle: bytes outside the rectangle keep the sentinel, the rectangle equals the exact-buffer result under both sentinels, the source is unchanged, an error or a zero dimension leaves the destination untouched".into();
     p.bounds = json!({"S": s});
